@@ -1,5 +1,7 @@
 import BoboVerif.Props.C12
 import BoboVerif.Lemmas.Remote
+import BoboVerif.Lemmas.RunChange
+import BoboVerif.Lemmas.LocalStarts
 /-!
 C03 — Replication is transparent and survivors take over (failover equivalence).
 
@@ -43,31 +45,6 @@ with full delivery between inputs, every replica's buckets equal the single deci
 def SyncBisim (c : Cfg ε) (single : DState ε) (replicas : List (DState ε)) : Prop :=
   ∀ r ∈ replicas, ∀ ph pa, (r.table.runsFrom ph pa).map (fun x => (x.run.id, x.run.idx, x.run.hist.size))
     = (single.table.runsFrom ph pa).map (fun x => (x.run.id, x.run.idx, x.run.hist.size))
-
-/-- a change that keeps the run active recorded the event (and did not move backwards). -/
-theorem changed_live_records (p : Pattern ε) (r : Run ε) (e : ε)
-    (hch : (process p r e).1 = .ok true) (hlive : (process p r e).2.halted = false) :
-    (∃ g, (process p r e).2.hist = addEvent r.hist g e) ∧ r.idx ≤ (process p r e).2.idx := by
-  refine ⟨?_, idx_monotone p r e⟩
-  unfold process at *
-  by_cases hh : r.halted = true
-  · simp [hh] at hch
-  · simp only [hh, if_false] at hch hlive ⊢
-    cases hg : gate p e r.hist with
-    | none => simp [hg] at hch
-    | some b =>
-      cases b
-      · simp [hg, halt] at hlive
-      · simp only [hg] at hch hlive ⊢
-        have hr := walk_res p.blocks.length e (p.blocks.drop r.idx) r.idx r
-        generalize walk p.blocks.length e (p.blocks.drop r.idx) r.idx r = w at hr hch hlive
-        cases hr with
-        | index => simp at hch
-        | raised => simp at hch
-        | wait => simp at hch
-        | halt => simp [halt] at hlive
-        | record g => exact ⟨g, rfl⟩
-        | advance g j => exact ⟨g, rfl⟩
 
 /-- a local change that keeps the run active yields a position strictly ahead of the old one. -/
 theorem local_update_is_ahead_partial (p : Pattern ε) (r : Run ε) (e : ε)
@@ -138,5 +115,43 @@ theorem replica_removes_finished_partial (c : Cfg ε) (hns : NoSing c) (b : Bool
     simp only
     rw [runAt_remove]
     simp
+
+/-- **replicas mirror the originator, position by position**: if a replica agrees with the originator on the
+status of every run key before the originator processes an event (same finished runs, same active runs at the
+same index and history size), then after it applies the originator's notification it agrees again — for every
+pattern set without singletons, every event, every table; finished-run memory enabled and not evicting.
+(Both sides are joins with the SAME notification: `local_is_join` and `remote_is_join`.)  By induction, with
+all replication messages delivered between consecutive inputs, every live replica holds at every moment the
+same runs at the same positions as the instance that processed the input — so any survivor can take over. -/
+theorem replica_mirrors_status (c : Cfg ε) (hc : c.caching = true) (hns : NoSing c)
+    (sA sA' sB sB' : DState ε) (e : ε) (nt nB : Notif ε) (ch : Bool)
+    (hwf : TableWF sA.table)
+    (hA : localStep c sA e = some (sA', nt, ch))
+    (hB : remoteStep c sB nt.completed nt.halted nt.updated = some (sB', nB))
+    (hAC : sA.cacheC.length + nt.completed.length ≤ c.maxCache) (hAH : sA.cacheH.length + nt.halted.length ≤ c.maxCache)
+    (hBC : sB.cacheC.length + nt.completed.length ≤ c.maxCache) (hBH : sB.cacheH.length + nt.halted.length ≤ c.maxCache)
+    (ph pa id : String) (hk : (c.getPattern ph pa).isSome = true)
+    (hagree : abs sB ph pa id = abs sA ph pa id) :
+    abs sB' ph pa id = abs sA' ph pa id := by
+  rw [remote_abs_after c hc hns sB sB' nB _ _ _ hBC hBH hB ph pa id hk,
+    (local_is_join c hc sA sA' e nt ch hwf hA hAC hAH).2 ph pa id, hagree]
+
+/-- the replica reports exactly the completions the originator reported that it had not already seen. -/
+theorem replica_reports_completions (c : Cfg ε) (hc : c.caching = true) (hns : NoSing c)
+    (sB sB' : DState ε) (nB : Notif ε) (comp halt upd : List (Rec ε))
+    (hBC : sB.cacheC.length + comp.length ≤ c.maxCache) (hBH : sB.cacheH.length + halt.length ≤ c.maxCache)
+    (hB : remoteStep c sB comp halt upd = some (sB', nB))
+    (ph pa id : String) (hk : (c.getPattern ph pa).isSome = true) (hin : comp.any (·.id == id) = true) :
+    abs sB' ph pa id = Bobo.Lattice.completed := by
+  rw [remote_abs_after c hc hns sB sB' nB _ _ _ hBC hBH hB ph pa id hk]
+  have hv := absMsg_valid comp halt upd ph pa id
+  have : absMsg comp halt upd ph pa id = Bobo.Lattice.completed := by
+    unfold absMsg
+    simp only [hin, if_true]
+    refine join_completed_left (join_valid ?_ (joinAll_recSt_valid _))
+    split
+    · exact halted_valid
+    · exact bot_valid
+  rw [this]; exact join_completed_right (abs_valid _ _ _ _)
 
 end Bobo.Decider
